@@ -7,6 +7,7 @@ for arg in "$@"; do
     w3_*) r=${n#w3_}; x=${r%%_*}; m=${r##*_}; src=/tmp/mut3_$x/deliver/$m;;
     w4_*) r=${n#w4_}; x=${r%%_*}; m=${r##*_}; src=/tmp/mut4_$x/deliver/$m;;
     w5_*) r=${n#w5_}; x=${r%%_*}; m=${r##*_}; src=/tmp/mut5_$x/deliver/$m;;
+    w6_*) r=${n#w6_}; x=${r%%_*}; m=${r##*_}; src=/tmp/mut6_$x/deliver/$m;;
     *) x=${n%%_*}; m=${n##*_}; src=/tmp/mut_$x/deliver/$m;;
   esac
   P=$(echo $x | tr c C)
